@@ -261,6 +261,18 @@ def exec (s : St) (ws : List String) : Option (St × String) :=
       let g2 := registerChans (registerChans r.1.g .dataIn (ins.map Prod.snd)) .dataOut (outs.map Prod.snd)
       some ({ s with w := { r.1 with g := g2 }, names }, showRes r.2)
     | _, _ => none
+  | "loadchild" :: label :: "in" :: rest =>
+    -- `child.load()` in place: the loaded channels (new ids) are declared here
+    let (ins, outs) := splitAt rest "out"
+    if !rest.contains "out" then none else
+    match ins.mapM parseChan, outs.mapM parseChan with
+    | some ins, some outs =>
+      let r := step s.w (.load label { label := label, ins, outs })
+      let mine := (ins ++ outs).map fun lc => (lc.2, s!"{label}.{lc.1}")
+      let names := if r.2 = .ok then (s.names.filter fun e => (mine.lookup e.1).isNone) ++ mine else s.names
+      some ({ s with w := r.1, names }, showRes r.2)
+    | _, _ => none
+  | ["echo", res] => if res = "" then none else some (s, res)
   | ["relabel", old, arg] =>
     -- re-labelling a held child through the workflow: `s:<label>`, `attr:<name>`, `nonstr`
     let la : Option LabelArg := match arg.splitOn ":" with
